@@ -12,7 +12,8 @@ type SinkPC struct {
 	mu     sync.Mutex
 	Out    [][]byte
 	Inbox  [][]byte
-	From   []net.Addr // source address of Inbox[i] (nil or missing: Remote)
+	From   []net.Addr    // source address of Inbox[i] (nil or missing: Remote)
+	Delay  time.Duration // wall-clock wait before each Inbox datagram is handed over
 	Local  net.Addr
 	Remote net.Addr
 }
@@ -31,6 +32,9 @@ func (s *SinkPC) ReadFrom(p []byte) (int, net.Addr, error) {
 	}
 	d := s.Inbox[0]
 	s.Inbox = s.Inbox[1:]
+	if s.Delay > 0 {
+		time.Sleep(s.Delay)
+	}
 	from := s.Remote
 	if len(s.From) > 0 {
 		if s.From[0] != nil {
